@@ -117,7 +117,35 @@ func Route(layout int) {
 			vp.Assert("write-reaches-no-other-memory", ps[i].writes == 0)
 		}
 	}
+	second(b, ps, &owner)
 	vp.Reach("attached")
+}
+
+// second: routing is a function of the address alone, not of what was accessed before: after the
+// accesses already made on this bus, a read at another arbitrary window address still goes to the
+// memory attached over *that* address (or fails loudly).
+func second(b *bus.Bus, ps [3]*probe, owner *[winSegs]int) {
+	a2 := uint32(winBase) + uint32(vp.U16("offset-2"))
+	vp.Assume(a2 < winBase+16*winSegs)
+	own2 := ownerOf(owner, a2)
+	before := [3]int{ps[0].reads, ps[1].reads, ps[2].reads}
+	var got byte
+	failed := vp.Try(func() { got = b.EaRead(a2) })
+	if own2 < 0 {
+		vp.Assert("a-later-access-is-routed-by-its-own-address", failed && ps[0].reads == before[0] && ps[1].reads == before[1] && ps[2].reads == before[2])
+		return
+	}
+	ok := !failed && got == ps[own2].value(a2) && ps[own2].lastAddr == a2
+	for i := 0; i < 3; i++ {
+		want := before[i]
+		if i == own2 {
+			want++
+		}
+		if ps[i].reads != want {
+			ok = false
+		}
+	}
+	vp.Assert("a-later-access-is-routed-by-its-own-address", ok)
 }
 
 // ownerOf selects the owner of a (symbolic) window address by comparison.
@@ -252,6 +280,27 @@ func Dump(layout int, seg0 int, nseg int) {
 	vp.Assert("dump-position-i-holds-what-a-read-of-start+i-returns", okAttached)
 	vp.Assert("dump-leaves-unattached-positions-untouched", okHoles)
 	vp.Assert("dump-writes-nothing-beyond-the-range", okBeyond)
+	vp.Reach("end")
+}
+
+// AfterDump: an ordinary access, a dump, another ordinary access. The dump range is concrete here (start
+// nibble 3 of segment seg0, end nibble 9 of segment seg0+nseg; the contents of dumps are Dump's
+// subject); the later read at an arbitrary window address must be routed by its own address.
+func AfterDump(layout int, seg0 int, nseg int) {
+	b, ps, owner := build(layout)
+	start := uint32(winBase+16*seg0) + 3
+	end := uint32(winBase+16*(seg0+nseg)) + 9
+	data := make([]byte, 16*(nseg+1)+4)
+	// an access before the dump as well (whatever the bus remembers of it must not outlive the dump)
+	a0 := uint32(winBase) + uint32(vp.U16("offset-0"))
+	vp.Assume(a0 < winBase+16*winSegs)
+	vp.Try(func() { b.EaRead(a0) })
+	failed := vp.Try(func() { b.EaDump(start, end, data) })
+	vp.Assert("dump-completes", !failed)
+	if failed {
+		return
+	}
+	second(b, ps, &owner)
 	vp.Reach("end")
 }
 
